@@ -122,8 +122,21 @@ structure MirrorRules (s : Schema) (d : List DRules × List DRules) : Prop where
                                  Forall2 MirrorUnique e.uniques r.uniques) s.entities d.1
   types : Forall2 (fun t r => r.owner = t.name ∧ Forall2 MirrorWhere t.wheres r.wheres ∧ r.uniques = []) s.types d.2
 
+/-- the supertype statement of an entity descriptor: `ABSTRACT SUPERTYPE` / `SUPERTYPE`, and ` OF ( <constraint>)` when the
+    declaration has one; no statement for an entity that has neither -/
+def MirrorSuperStmt (e : Entity) (t : Option String) : Prop :=
+  t = match e.abstract, e.superExpr with
+    | true, some x => some ("ABSTRACT SUPERTYPE OF ( " ++ x ++ ")")
+    | true, none => some "ABSTRACT SUPERTYPE"
+    | false, some x => some ("SUPERTYPE OF ( " ++ x ++ ")")
+    | false, none => none
+
 end Spec
 open Spec
+
+theorem mirrorSuperStmt (e : Entity) : MirrorSuperStmt e (supertypeStmt e) := by
+  unfold MirrorSuperStmt supertypeStmt
+  cases e.abstract <;> cases e.superExpr <;> rfl
 
 theorem mirrorWhere_whereText (w : WhereRule) : MirrorWhere w (whereText w) := by
   unfold MirrorWhere whereText
